@@ -1,6 +1,6 @@
 """C11 — checksummed text encodings: canonical, corruption rejected."""
 import hashlib
-from harness.core import hexp
+from harness.core import Infra, hexp
 
 B58 = '123456789ABCDEFGHJKLMNPQRSTUVWXYZabcdefghijkmnopqrstuvwxyz'
 B32 = 'qpzry9x8gf2tvdw0s3jn54khce6mua7l'
@@ -259,7 +259,9 @@ def run(ctx):
         """items: (string, py) ; expected: accept <payload part> iff b58check decodes to a well-formed payload"""
         from harness.core import run_driver
         res = run_driver(['b58check ' + s for s, _ in items])
-        for (s, py), r in zip(items, res):
+        # the import decision for extended keys is the model's (`xkeyImport`: length, known version, key field of the announced kind)
+        xres = run_driver(['xkey_import ' + s for s, _ in items]) if kind == 'xkey' else [None] * len(items)
+        for (s, py), r, xr in zip(items, res, xres):
             spec_payload = r.split(' | ')[0].strip()
             ctx.evals += 1; ctx.traces += 1
             ctx.count('mutants:' + kind)
@@ -283,6 +285,8 @@ def run(ctx):
                                   for pf in NETWORK_DEFINITIONS[n]['prefixes_wif'])
                     key_ok = len(raw) == 78 and ((priv_ver and raw[45] == 0) or (pub_ver and raw[45] in (2, 3)))
                     exp = 'accept ' + raw[4:].hex() if known and len(raw) == 78 and key_ok else 'none'
+                    if xr is not None and xr.split(' | ')[0].strip() != exp:
+                        raise Infra('model xkeyImport and the harness expectation disagree on %s: %s / %s' % (s, xr, exp))
             if py != exp:
                 if py == 'none':
                     ctx.count('refused-where-spec-accepts:' + kind)
